@@ -341,3 +341,4 @@ func verif_C17_client_seg() {
 	}
 	verifReach("C17.client-seg-end")
 }
+func verif_C17_two_messages() { verifTwoMessages("C17") }
